@@ -700,9 +700,32 @@ class BinaryOp(Expr):
                 'Attempting to evaluate binary operation on '
                 'non-primitive values')
 
+    @property
+    def _operand_type(self):
+        # The type both operands are converted to before the operation
+        # is performed; must agree with what the code generators emit.
+        if not self.op.is_comparison:
+            return self.type
+        for t in (Type.DOUBLE, Type.SINGLE, Type.LONG):
+            if t in (self.left.type, self.right.type):
+                return t
+        return Type.INTEGER
+
+    def _eval_operand(self, operand):
+        # The value the operand has at run time: first held in a cell
+        # of its own type, then converted to the operand type of this
+        # operation (which fails if it does not fit).
+        value = operand.type.coerce(operand.eval())
+        operand_type = self._operand_type
+        if operand_type.is_integral and isinstance(value, float):
+            value = round(value)
+        if not operand_type.can_hold(value):
+            raise OverflowError
+        return operand_type.coerce(value)
+
     def _eval_numeric(self):
-        left = self.type.coerce(self.left.eval())
-        right = self.type.coerce(self.right.eval())
+        left = self._eval_operand(self.left)
+        right = self._eval_operand(self.right)
 
         def qbool(x):
             return -1 if x else 0
@@ -720,7 +743,7 @@ class BinaryOp(Expr):
         def limit(x):
             # a result the expression's type cannot hold is an overflow;
             # it is left to be raised at run time (see Expr.fold)
-            if not self.type.can_hold(x):
+            if isinstance(x, complex) or not self.type.can_hold(x):
                 raise OverflowError
             return x
 
